@@ -66,7 +66,7 @@ P = {
  "C19": ("exploration", "bounded-exhaustive string enumeration + edit-distance-2 mutants (incl. Unicode look-alikes) + keyword dictionary and combinations vs hand-written recognisers",
          "Every string up to length L over each matcher's own characters plus HTML-significant ones, and all single/double edits of documented examples, compared with hand-written recognisers of the documented forms (exhaustive for the stated bound).", "4/C19",
          "recognisers are written from the doc comments; (?i) is Unicode simple folding."),
- "C20": ("exploration", "double-sanitise differential on hostile/conforming inputs for in-class policies; deterministic URL-normalisation and style-normalisation streams",
+ "C20": ("exploration", "double-sanitise differential on hostile/conforming inputs for in-class policies; deterministic URL-normalisation and style-normalisation streams; one-giant-token size ladder (32 KiB-8 MiB, thorough 32 MiB) whose written form outgrows its source form",
          "Sanitize(Sanitize(x)) must equal Sanitize(x) for generated policies of the stated class, StrictPolicy and UGCPolicy (del/ins cite excluded).", "4/C20",
          "class membership is decided on the shadow rule set."),
 }
